@@ -1,6 +1,87 @@
-(* C09 — the property theorems, and nothing else. *)
-From VF Require Import Upload.Model Upload.Spec Upload.Proofs.
+(* C09 — the property theorems, and nothing else.
 
-Theorem first_error_wins : forall r c, c <> 0%N -> r_code (attach r c) <> 0%N.
-Proof. exact attach_code_nonzero. Qed.
+   Setting: [run_action batch b cas a ao] is caching(flushing(local)) on one
+   action [a] over a batched store in state [b] and a CAS holding [cas];
+   [ao] gives the result of every storage call (FindMissing, each Put, which
+   Puts are still issued after a failure, the final AC / CAS write).  The
+   theorems hold for every batch size (0 included), every upload list (with
+   duplicates), every exit code / status / do_not_cache and every [ao]. *)
+From VF Require Import Upload.Model Upload.Spec Upload.Proofs.
+Open Scope N_scope.
+
+(* A Put acknowledged by the batching layer is in the CAS when the flush
+   reports success; otherwise that flush reports an error. *)
+Theorem ack_stored_or_reported : forall batch b cas a ao b2 cas2 o fits,
+  run_action batch b cas a ao = (b2, cas2, o, fits) ->
+  oc_ret (oa_flush o) = 0 ->
+  forall d, In d (acked (a_blobs a) (oa_puts o)) -> memN d (oa_cas o) = true.
+Proof. exact ack_stored_or_reported_l. Qed.
+Print Assumptions ack_stored_or_reported.
+
+(* AC written => not do_not_cache, status OK, exit code 0, and every blob
+   the stored ActionResult references is in the CAS. *)
+Theorem ac_only_complete : forall batch b cas a ao b2 cas2 o fits,
+  run_action batch b cas a ao = (b2, cas2, o, fits) ->
+  forall rs, oa_ac o = Some rs ->
+  a_dnc a = false /\ r_code (oa_resp o) = 0 /\ r_exit (oa_resp o) = 0 /\
+  forall d, In d rs -> memN d (oa_cas o) = true.
+Proof. exact ac_only_complete_l. Qed.
+Print Assumptions ac_only_complete.
+
+(* Any failed FindMissing / Put of the upload phase or a failed flush =>
+   status not OK, no AC entry, no output / stdout / stderr digests. *)
+Theorem failure_pruned : forall batch b cas a ao b2 cas2 o fits,
+  run_action batch b cas a ao = (b2, cas2, o, fits) ->
+  upload_failed o = true ->
+  r_code (oa_resp o) <> 0 /\ oa_ac o = None /\ advertises_nothing (oa_resp o) = true.
+Proof. exact failure_pruned_l. Qed.
+Print Assumptions failure_pruned.
+
+(* A failed AC write (or historical-response write) => status not OK, no AC entry. *)
+Theorem final_write_failure_reported : forall batch b cas a ao b2 cas2 o fits,
+  run_action batch b cas a ao = (b2, cas2, o, fits) ->
+  final_failed o = true ->
+  r_code (oa_resp o) <> 0 /\ oa_ac o = None.
+Proof. exact final_failure_l. Qed.
+Print Assumptions final_write_failure_reported.
+
+(* Every buffer handed to the batching layer during an action is consumed
+   (passed to the CAS or discarded) exactly once by the end of the action. *)
+Theorem buffers_consumed_once : forall batch b cas a ao b2 cas2 o fits,
+  run_action batch b cas a ao = (b2, cas2, o, fits) ->
+  b_pending b = [] ->
+  oa_closes o = repeat 1%nat (length (a_blobs a)).
+Proof. exact buffers_consumed_once_l. Qed.
+Print Assumptions buffers_consumed_once.
+
+(* The monitor Corr.v evaluates on the implementation never fires on the
+   model: for every sequence of actions and oracles over one batched store. *)
+Theorem trace_ok : forall batch l cas,
+  Forall (fun ao => p_action (fst ao) (snd ao) = ""%string) (run_actions batch binit cas l).
+Proof. exact trace_ok_l. Qed.
+Print Assumptions trace_ok.
+
+(* The error of an earlier decorator is never overwritten. *)
+Theorem first_error_wins : forall r c, r_code r <> 0 -> attach r c = r.
+Proof. exact attach_keeps_error. Qed.
 Print Assumptions first_error_wins.
+
+(* ---- non-vacuity --------------------------------------------------------------- *)
+
+(* A cacheable action whose three uploads (one duplicate) all succeed with a
+   batch size of 1 reaches the AC with its references in the CAS ... *)
+Example reaches_ac :
+  let a := mkAction [mkBlob 1 RFile; mkBlob 2 RStdout; mkBlob 1 RTree] 0 0 false in
+  let ao := mkAO [None; Some (mkO 0 [(1, 0)]); Some (mkO 0 [(2, 0)])] (mkO 0 []) 0 in
+  let '(_, _, o, fits) := run_action 1 binit [] a ao in
+  fits = true /\ oa_ac o = Some [1; 1; 2] /\ oa_cas o = [1; 2] /\ r_msg (oa_resp o) = 1.
+Proof. vm_compute. repeat split; reflexivity. Qed.
+
+(* ... and the same action with a failing Put during the final flush is
+   reported, pruned and not cached. *)
+Example failure_is_pruned :
+  let a := mkAction [mkBlob 1 RFile; mkBlob 2 RStdout; mkBlob 3 RTree] 0 0 false in
+  let ao := mkAO [None; Some (mkO 0 [(1, 0)]); Some (mkO 0 [(2, 0)])] (mkO 0 [(3, 13)]) 0 in
+  let '(_, _, o, fits) := run_action 1 binit [] a ao in
+  fits = true /\ upload_failed o = true /\ oa_ac o = None /\ r_code (oa_resp o) = 13 /\ r_msg (oa_resp o) = 2.
+Proof. vm_compute. repeat split; reflexivity. Qed.
